@@ -13,7 +13,7 @@ build() {
 }
 need_build() {
   [ ! -x "$VERIF/bin/goatverif" ] && return 0
-  [ -n "$(find "$VERIF/tool" -name '*.go' -newer "$VERIF/bin/goatverif" -not -path '*/vendor/*' -print -quit)" ] && return 0
+  [ -n "$(find "$VERIF/tool" \( -name '*.go' -o -name inventory.txt \) -newer "$VERIF/bin/goatverif" -not -path '*/vendor/*' -print -quit)" ] && return 0
   return 1
 }
 case "${1:-}" in
